@@ -54,6 +54,62 @@ def getWire (j : Json) : Except String Wire := do
          host := ← getBytes j "host", contentSha := ← getBytes j "content_sha", amzDate := ← getBytes j "amz_date",
          authorization := [] }
 
+/-- the fields of a `sigv4.sign` reply for the signing inputs `i` and the request `w` on the wire (`w = toWire c i`, or a request
+the HTTP library derived from it) -/
+def signFields (c : Crypto) (i : Inputs) (w : Wire) : List (String × Json) :=
+  let cr := clientCanonicalRequest i
+  let scope := scopeOf i.date i.region
+  [ ("path", jhex (clientPath i.path)), ("query_string", jhex (clientQueryString i.query)),
+    ("canonical_request", jhex cr), ("scope", jhex scope),
+    ("string_to_sign", jhex (stringToSignOf c i.amzDate scope cr)),
+    ("signature", jhex (clientSignature c i)), ("authorization", jhex w.authorization),
+    ("wire_method", jhex w.method),
+    ("wire_target", jhex w.target), ("wire_host", jhex w.host), ("wire_content_sha", jhex w.contentSha),
+    ("wire_amz_date", jhex w.amzDate), ("wire_query", jpairs w.query),
+    ("ref_canonical_request", jhex (refCanonicalRequest true w)),
+    ("ref_signature", jhex (refSignature c true i.secret i.region w)),
+    ("ref_signature_plus_literal", jhex (refSignature c false i.secret i.region w)),
+    ("dot_segments", Json.bool (hasDotSegment (clientPath i.path))),
+    ("host_normal", Json.bool (hostIsNormal i.scheme i.host)) ]
+
+def parseReply (x : Json) : Except String Reply := do
+  match (← getStr x "k") with
+  | "answer" => pure .answer
+  | "fail" => pure (.fail (if (← getNat x "cls") == 0 then .status else .transport))
+  | "odd" => pure .odd
+  | "redirect" =>
+    pure (.redirect (← getNat x "status") ⟨← getBool x "same_origin", ← getBool x "https_upgrade", ← getBytes x "host",
+      ← getBytes x "path", ← getPairs x "query"⟩)
+  | k => throw s!"unknown reply kind {k}"
+
+def withClock (base : Inputs) (t : ClockReading) (q : List (Bytes × Bytes)) : Inputs :=
+  { base with amzDate := fmtAmzDate t, date := fmtDate t, query := q }
+
+/-- the adapter functions of one call, page after page (one page for everything but a listing): every page is one retried
+function (`callRequests`), the script of replies and the numbering of the signings run on.  A listing that is handed a redirect
+response as if it were a page (possible only behind a hook that lets redirects pass) finds neither `IsTruncated` nor a token in
+it and asks for the same page again; `fuel` bounds that (every such round consumes a reply). -/
+def exchangeLoop (c : Crypto) (base : Inputs) (clock : Nat → ClockReading) (queryOf : Nat → List (Bytes × Bytes)) (tries : Nat)
+    (listing : Bool) : Nat → Nat → Nat → Nat → List Reply → List (Nat × Nat × Wire) × Bool × Nat
+  | 0, _, _, j, _ => ([], false, j)
+  | _ + 1, 0, _, j, _ => ([], true, j)
+  | fuel + 1, n + 1, page, j, rs =>
+    let r := callRequests (fun k => toWire c (withClock base (clock k) (queryOf page))) tries j rs
+    let here := r.1.map fun p => (page, p.1, p.2)
+    if r.2.1 then
+      let again := listing && r.2.2.2.2
+      let r' := if again then exchangeLoop c base clock queryOf tries listing fuel (n + 1) page r.2.2.2.1 r.2.2.1
+                else exchangeLoop c base clock queryOf tries listing fuel n (page + 1) r.2.2.2.1 r.2.2.1
+      (here ++ r'.1, r'.2)
+    else (here, false, r.2.2.2.1)
+
+/-- number every request within its signing: 0 = the request `_prepare_request` built, ≥ 1 = emitted by the HTTP library -/
+def withHops : Option Nat → Nat → List (Nat × Nat × Wire) → List (Nat × Nat × Nat × Wire)
+  | _, _, [] => []
+  | prev, h, (page, k, w) :: rest =>
+    let hop := if prev == some k then h + 1 else 0
+    (page, k, hop, w) :: withHops (some k) hop rest
+
 /-- requests `sigv4.*` (see DESIGN.md Appendix A) -/
 def handleSigV4 (op : String) (j : Json) : Except String Json := do
   match op with
@@ -73,6 +129,8 @@ def handleSigV4 (op : String) (j : Json) : Except String Json := do
       ("key_terminator", jhex Gen.s3KeyTerminator), ("service", jhex Gen.s3Service),
       ("list_keys", Json.arr #[jhex Gen.s3ListTypeKey, jhex Gen.s3ListTypeValue, jhex Gen.s3TokenKey, jhex Gen.s3PrefixKey]),
       ("stream_rewind_to", match Gen.s3StreamRewindTo with | some p => jnat p | none => Json.null),
+      ("follow_redirects", Json.bool Gen.s3FollowRedirects), ("hook_raises_on_non_2xx", Json.bool Gen.s3HookRaisesOnNon2xx),
+      ("max_redirects", jnat Gen.s3MaxRedirects),
       ("shape_flags", Json.mkObj [
         ("signed_strings_are_sent_strings", Json.bool Gen.s3SignedStringsAreSentStrings),
         ("canonical_headers_shape", Json.bool Gen.s3CanonicalHeadersShape),
@@ -109,6 +167,7 @@ def handleSigV4 (op : String) (j : Json) : Except String Json := do
       ("canonical_request", jhex cr), ("scope", jhex scope),
       ("string_to_sign", jhex (stringToSignOf c i.amzDate scope cr)),
       ("signature", jhex (clientSignature c i)), ("authorization", jhex (clientAuthorization c i)),
+      ("wire_method", jhex w.method),
       ("wire_target", jhex w.target), ("wire_host", jhex w.host), ("wire_content_sha", jhex w.contentSha),
       ("wire_amz_date", jhex w.amzDate), ("wire_query", jpairs w.query),
       ("ref_canonical_request", jhex (refCanonicalRequest true w)),
@@ -116,6 +175,34 @@ def handleSigV4 (op : String) (j : Json) : Except String Json := do
       ("ref_signature_plus_literal", jhex (refSignature c false i.secret i.region w)),
       ("dot_segments", Json.bool (hasDotSegment (clientPath i.path))),
       ("host_normal", Json.bool (hostIsNormal i.scheme i.host))])
+  | "sigv4.exchange" =>
+    -- one adapter call against a script of replies: which requests reach the wire (page, signing, hop) and what each looks like
+    let base ← getInputs j
+    let c := realCrypto
+    let clocks ← (← getArr j "clocks").toList.mapM fun x => do
+      match (← x.getArr?).toList with
+      | [y, mo, d, h, mi, s] => pure (⟨← y.getNat?, ← mo.getNat?, ← d.getNat?, ← h.getNat?, ← mi.getNat?, ← s.getNat?⟩ : ClockReading)
+      | _ => throw "clocks: six numbers per reading expected"
+    let clock : Nat → ClockReading := fun k => match clocks[k]? with | some t => t | none => ⟨0, 0, 0, 0, 0, 0⟩
+    let replies ← (← getArr j "replies").toList.mapM parseReply
+    let tries ← match j.getObjVal? "tries" with
+      | .ok _ => getNat j "tries"
+      | .error _ => match Gen.retryS3MaxTries with | some n => pure n | none => throw "max_tries is None: tries must be given"
+    let (pages, listing, queryOf) ← match j.getObjVal? "list" with
+      | .ok _ => do
+        let pfx ← getBytes j "prefix"
+        let toks ← (← getArr j "tokens").toList.mapM fun x => do unhex (← x.getStr?)
+        let q : Nat → List (Bytes × Bytes) := fun page => listQuery (match page with | 0 => none | p + 1 => toks[p]?) pfx
+        pure (toks.length + 1, true, q)
+      | .error _ => do
+        let q ← getPairs j "query"
+        pure (1, false, (fun _ => q))
+    let r := exchangeLoop c base clock queryOf tries listing (replies.length + pages + 1) pages 0 0 replies
+    let reqs := (withHops none 0 r.1).map fun (page, k, hop, w) =>
+      Json.mkObj ([("page", jnat page), ("signing", jnat k), ("hop", jnat hop), ("clock_given", Json.bool (k < clocks.length))]
+        ++ signFields c (withClock base (clock k) (queryOf page)) w)
+    pure (Json.mkObj [("requests", Json.arr reqs.toArray), ("ok", Json.bool r.2.1), ("signings", jnat r.2.2),
+      ("follow_redirects", Json.bool Gen.s3FollowRedirects), ("hook_raises_on_non_2xx", Json.bool Gen.s3HookRaisesOnNon2xx)])
   | "sigv4.ref" =>
     let w ← getWire j
     let secret ← getBytes j "secret"
